@@ -278,8 +278,8 @@ def rule_value_flow(ck: Check, repo: Repo) -> None:
 
 
 # ------------------------------------------------------------------ R5/R6/R7
-def rule_window(ck: Check, repo: Repo, folder: Folder) -> None:
-    r = ck.rule("R5", "4 KiB window / snippet / seek order; parse error ⇒ no information; lossy-free decode")
+def rule_window(ck: Check, repo: Repo, folder: Folder, rid: str = "R5") -> None:
+    r = ck.rule(rid, "4 KiB window / snippet / seek order; parse error ⇒ no information; lossy-free decode")
     q = f"{EX}.reuse_info_of_file"
     fn = repo.func(q)
     ck.analysed_fn(q, f"{EX}._contains_snippet", f"{EX}.decoded_text_from_binary")
